@@ -21,6 +21,9 @@ COMMON_NOTE = ("Trusted: the harness's dense long-double reference, the choice-s
                "Exploration only: the property is shown to hold on the generated cases (counts in the evidence file), nothing is proved.")
 
 INFO = {
+    "C15": dict(level="exploration", assumptions=COMMON_ASSUME, note=COMMON_NOTE,
+                technique="property-based testing (rapidcheck): validity predicates on the returned ILU factors, the preconditioner-solve identity against the decoded factors, and the complete-LU oracles when dropping is disabled",
+                text="Generated structurally nonsingular matrices (with zero diagonals and singular leading blocks) go through ?gsisx under every drop rule / MILU / row-permutation combination; the result is judged by predicates that any correct ILU must satisfy."),
     "C19": dict(level="exploration", assumptions=COMMON_ASSUME + ["uninitialised reads are detected by differential runs under three fill patterns (no usable MSan under a C++ harness); a read that changes neither an output nor control flow is not detected"], note=COMMON_NOTE,
                 technique="property-based testing (rapidcheck) of API lifecycles under ASan+UBSan with an allocation ledger (leak / double free) and garbage-fill differential runs; coverage-guided libFuzzer campaign on the same target in the thorough tier",
                 text="Generated lifecycles ending in every exit class run under sanitizers with every library allocation tracked; each lifecycle is repeated under three memory fill patterns and must produce bit-identical outputs."),
@@ -79,7 +82,7 @@ INFO = {
 
 NOT_APPLICABLE = {}
 
-PROPS = ["C01", "C02", "C03", "C04", "C05", "C06", "C07", "C08", "C10", "C11", "C12", "C13", "C14", "C16", "C17", "C18", "C19", "C20"]
+PROPS = ["C01", "C02", "C03", "C04", "C05", "C06", "C07", "C08", "C10", "C11", "C12", "C13", "C14", "C15", "C16", "C17", "C18", "C19", "C20"]
 
 
 def all_props():
